@@ -34,7 +34,7 @@ func seededParams(name string, r *rand.Rand) Params {
 }
 
 // conflictTx builds a valid transaction of account a that names `victim` in a Conflicts attribute.
-func (w *World) conflictTx(a *acct, victim *transaction.Transaction, idx int, h uint32) (*transaction.Transaction, error) {
+func (w *World) conflictTx(a *acct, victim *transaction.Transaction, idx int, h uint32) (*Built, error) {
 	c := Cell{Form: "ok", Script: "ok", Vub: "mid", Chain: "fresh", Blocked: "none", Sysfee: "ok", Attr: "conflicts", Size: "small",
 		D: "p1", Wit: "sig", Cos: "none", Wval: "ok", Wat: "1", Bal: "ok", Enc: "canon"}
 	vh := victim.Hash()
@@ -45,7 +45,20 @@ func (w *World) conflictTx(a *acct, victim *transaction.Transaction, idx int, h 
 	if b.Tx == nil {
 		return nil, fmt.Errorf("conflicting tx does not parse: %s", b.ParseErr)
 	}
-	return b.Tx, nil
+	return b, nil
+}
+
+// emitAdmit writes an admission event (and its side line) and counts it.
+func emitAdmit(res *vh.Result, tr, det *vh.Trace, ev map[string]any) {
+	ob := ev["o"].(map[string]any)
+	det.Emit(map[string]any{"detail": ev["detail"], "msg": ob["poolmsg"]})
+	delete(ev, "detail")
+	delete(ob, "poolmsg")
+	tr.Emit(ev)
+	res.Inc("admit_events", 1)
+	if ob["inpool"].(bool) {
+		res.Inc("admitted", 1)
+	}
 }
 
 type cellResult struct {
@@ -66,11 +79,43 @@ func runCells(t *testing.T, res *vh.Result, tr, det *vh.Trace, w *World, rows []
 	nb := (len(fact) + perBlock - 1) / perBlock
 	hf := w.bc.BlockHeight() + uint32(nb)
 	prepared := map[int]*Built{}
+	skip := map[int]bool{}
 	var blockTxs []*transaction.Transaction
+	// Everything that goes into the fact blocks is a VALID transaction at this point; it is offered to the node first
+	// (a recorded, judged admission like any other).  What the node refuses is left out, so that a node that
+	// refuses valid transactions yields a verdict instead of a broken preparation.
+	preOffer := func(b *Built) bool {
+		out := "open"
+		if b.Std && b.Cell.Enc == "canon" {
+			out = "accept"
+		}
+		ev, paniced := w.Offer(b, &Row{Cell: b.Cell, Defects: []string{}, Outcome: out, Err: "ok"})
+		if paniced != nil {
+			res.Violate(map[string]any{"kind": "panic", "at": "PoolTx/VerifyTx"}, fmt.Sprintf("Go panic escaped admission: %v", paniced),
+				map[string]any{"world": w.P, "cell": b.Cell})
+			return false
+		}
+		emitAdmit(res, tr, det, ev)
+		return ev["o"].(map[string]any)["inpool"].(bool)
+	}
 	for _, i := range fact {
 		b, err := w.Build(rows[i].Cell, i, hf)
 		if err != nil || b.Tx == nil {
 			t.Fatalf("cannot prepare chain facts for cell %d %+v: %v %v", i, rows[i].Cell, err, b)
+		}
+		if rows[i].Cell.Chain == "dup" { // the transaction itself goes on chain: as of now it is a valid one
+			pre := *b
+			pre.Cell.Chain = "fresh"
+			pre.Facts = map[string]any{}
+			for k, v := range b.Facts {
+				pre.Facts[k] = v
+			}
+			pre.Idx = 6_000_000 + i
+			if !preOffer(&pre) {
+				skip[i] = true
+				res.Inc("fact_preparation_refused", 1)
+				continue
+			}
 		}
 		prepared[i] = b
 		switch rows[i].Cell.Chain {
@@ -83,15 +128,21 @@ func runCells(t *testing.T, res *vh.Result, tr, det *vh.Trace, w *World, rows []
 			} else if rows[i].Cell.Chain == "namedother" {
 				a = w.acc["OTHER"]
 			}
-			ctx, err := w.conflictTx(a, b.Tx, 5_000_000+i, hf)
+			cb, err := w.conflictTx(a, b.Tx, 5_000_000+i, hf)
 			if err != nil {
 				t.Fatalf("cell %d: %v", i, err)
 			}
-			blockTxs = append(blockTxs, ctx)
+			if !preOffer(cb) {
+				skip[i] = true
+				delete(prepared, i)
+				res.Inc("fact_preparation_refused", 1)
+				continue
+			}
+			blockTxs = append(blockTxs, cb.Tx)
 		}
 	}
-	for k := 0; k < nb; k++ {
-		lo, hi := k*perBlock, min((k+1)*perBlock, len(blockTxs))
+	for k := 0; k < nb; k++ { // the planned number of blocks, whatever was left out
+		lo, hi := min(k*perBlock, len(blockTxs)), min((k+1)*perBlock, len(blockTxs))
 		w.addBlock(false, blockTxs[lo:hi]...)
 	}
 	if w.bc.BlockHeight() != hf {
@@ -100,7 +151,7 @@ func runCells(t *testing.T, res *vh.Result, tr, det *vh.Trace, w *World, rows []
 	w.scanNamed()
 	var idxs []int
 	for i := range rows {
-		if pick(i) {
+		if pick(i) && !skip[i] {
 			idxs = append(idxs, i)
 		}
 	}
@@ -141,16 +192,9 @@ func runCells(t *testing.T, res *vh.Result, tr, det *vh.Trace, w *World, rows []
 				map[string]any{"world": w.P, "cell": c})
 			continue
 		}
-		det.Emit(map[string]any{"detail": o.ev["detail"], "msg": o.ev["o"].(map[string]any)["poolmsg"]})
-		delete(o.ev, "detail")
-		delete(o.ev["o"].(map[string]any), "poolmsg")
-		tr.Emit(o.ev)
+		emitAdmit(res, tr, det, o.ev)
 		res.Count([]any{w.P.Name, c})
-		res.Inc("admit_events", 1)
 		ob := o.ev["o"].(map[string]any)
-		if ob["inpool"].(bool) {
-			res.Inc("admitted", 1)
-		}
 		if j%997 == 3 {
 			res.Sample(map[string]any{"world": w.P.Name, "cell": c, "facts": o.ev["f"], "observed": ob})
 		}
@@ -172,7 +216,10 @@ func TestDriver(t *testing.T) {
 	sort.SliceStable(rows, func(i, j int) bool { return fmt.Sprint(rows[i].Cell) < fmt.Sprint(rows[j].Cell) })
 	r := vh.Rand(7)
 	share := vh.EnvInt("VERIF_W1_SHARE", 100) // percent of the cells repeated on the world with seeded policy values
-	worlds := []Params{defaultParams("W0"), seededParams("W1", r)}
+	worlds := []Params{defaultParams("W0")}
+	for k := 1; k < vh.EnvInt("VERIF_WORLDS", 2); k++ { // more chain states: seeded Policy values
+		worlds = append(worlds, seededParams(fmt.Sprintf("W%d", k), r))
+	}
 	for wi, p := range worlds {
 		w := NewWorld(t, p)
 		tr.Emit(map[string]any{"event": "world", "params": p, "height": w.bc.BlockHeight()})
